@@ -98,10 +98,10 @@ variable [Div α] [OfNat α 1]
 
 /-- Does `p` block the ear `p1,p2,p3`?  Go: `coords := inverseMat.MulColumn(p.Sub(p2))` with the
 matrix of columns `p1−p2`, `p3−p2`, i.e. `p − p2 = X·(p1−p2) + Y·(p3−p2)`, then
-`coords.X > 0 && coords.Y > 0 && onDiagonalSide`, where (after the `fix:` commit) the last
-conjunct asks that `p` is not strictly beyond the diagonal `p1p3` as seen from `p2`
-(`side(p)*side(p2) ≥ 0`, `side(q) = (p3−p1)×(q−p1)`).  `strictDiag = true` models the original
-code (`coords.X+coords.Y < 1`), kept for the regression example in Props. -/
+`coords.X > 0 && coords.Y > 0 && coords.X+coords.Y < 1+earDiagonalEpsilon` (after the `fix:`
+commit; the tolerance `1e-8` is the float stand-in for the closed condition `X+Y ≤ 1`: a vertex ON
+the diagonal `p1p3` blocks the ear).  `strictDiag = true` models the original code
+(`coords.X+coords.Y < 1`), kept for the regression example in Props. -/
 def blocks (strictDiag : Bool) (p1 p2 p3 p : P2 α) : Bool :=
   let det := (p1.x - p2.x) * (p3.y - p2.y) - (p3.x - p2.x) * (p1.y - p2.y)
   let inv := (1 : α) / det
@@ -115,9 +115,7 @@ def blocks (strictDiag : Bool) (p1 p2 p3 p : P2 α) : Bool :=
   let X := i0 * dx + i2 * dy
   let Y := i1 * dx + i3 * dy
   if strictDiag then decide (0 < X) && decide (0 < Y) && decide (X + Y < 1)
-  else
-    let side := fun (q : P2 α) => (p3.x - p1.x) * (q.y - p1.y) - (p3.y - p1.y) * (q.x - p1.x)
-    decide (0 < X) && decide (0 < Y) && decide (0 ≤ side p * side p2)
+  else decide (0 < X) && decide (0 < Y) && decide (X + Y ≤ 1)
 
 /-- `isVertexEar`.  `theta <= math.Pi` for `theta = clockwiseAngle(p1,p2,p3)` holds iff `p3−p2` is
 at most a half turn counter-clockwise from `p1−p2`, i.e. `(p1−p2)×(p3−p2) ≥ 0`, i.e.
